@@ -77,6 +77,9 @@ theorem generated_proof_validateBasic (H : Bytes → Bytes) (h32 : ∀ x, (H x).
     intro a ha; simp [hsizes a ha]
   simp only [a1, a2, a3, a4, a5, if_false, Bool.false_eq_true]
 
+example : (proofFor (fun _ => List.replicate 32 0) [[1], [2], [3]] 1).validateBasic = .ok () :=
+  generated_proof_validateBasic _ (by intro x; simp) _ 1 (by decide) (by decide)
+
 /-! ## (4) leaf / inner domain separation -/
 
 /-- A leaf hash never equals an inner hash, except through an explicit collision
@@ -84,6 +87,9 @@ between a `0x00 ‖ …` and a `0x01 ‖ …` preimage. -/
 theorem domain_separation (H : Bytes → Bytes) (x l r : Bytes) (h : leafHash H x = innerHash H l r) :
     IsCollision H (0 :: x, 1 :: (l ++ r)) :=
   ⟨by simp, h⟩
+
+example : ∃ (H : Bytes → Bytes) (x l r : Bytes), leafHash H x = innerHash H l r :=
+  ⟨fun _ => [7], [], [], [], rfl⟩
 
 /-! ## (2) soundness -/
 
@@ -199,6 +205,13 @@ theorem soundness_total_counterexample (H : Bytes → Bytes) :
   rw [hco]
   exact fun h => h.1 rfl
 
+/-- the hypotheses of `soundness_membership_partial` with a restated `Total` are satisfiable -/
+example : ∃ (H : Bytes → Bytes) (sz : Nat) (_ : ∀ x, (H x).length = sz) (_ : 0 < sz)
+    (items : List Bytes) (p : SimpleProof) (leaf : Bytes), items ≠ [] ∧ p.total ≠ items.length ∧
+    p.verify H (simpleHashFromByteSlices H items) leaf = .ok () :=
+  ⟨toyH, 1, toyH_len, by decide, [[1], [2], [3], [4], [5]], { proofFor toyH [[1], [2], [3], [4], [5]] 0 with total := 7 }, [1],
+    by simp, by simp, (soundness_total_counterexample toyH).1⟩
+
 /-- The exact extent of the malleability: `(Index, Total)` influence `Verify` only
 through their turn sequence. -/
 theorem verify_depends_on_turns {H : Bytes → Bytes} {p q : SimpleProof} (root : Option Bytes) (leaf : Bytes)
@@ -207,6 +220,12 @@ theorem verify_depends_on_turns {H : Bytes → Bytes} {p q : SimpleProof} (root 
     (ht : turns p.index.toNat p.total.toNat = turns q.index.toNat q.total.toNat) :
     p.verify H root leaf = q.verify H root leaf :=
   verify_congr_turns root leaf hp1 hp2 hq1 hq2 hl ha ht
+
+example : ∃ (p q : SimpleProof), p.total ≠ q.total ∧ 0 ≤ p.index ∧ p.index < p.total ∧ 0 ≤ q.index ∧ q.index < q.total ∧
+    p.leafHash = q.leafHash ∧ p.aunts = q.aunts ∧
+    turns p.index.toNat p.total.toNat = turns q.index.toNat q.total.toNat :=
+  ⟨⟨7, 0, none, []⟩, ⟨5, 0, none, []⟩, by decide, by decide, by decide, by decide, by decide, rfl, rfl,
+    turns_0_7_eq_turns_0_5⟩
 
 /-! ## mutations: leaf, proof, root -/
 
